@@ -114,4 +114,59 @@ theorem decMDiff_enc (f : Fmt) (hC : TabOK (tablesUMapChange f) 4) (hD : TabOK (
     rw [decList_enc (encMChange f) (decMChange f) WFMChange (fun c r h => decMChange_enc f hC c r h) es hd.1 hd.2 rest]
     rfl
 
+
+/-! recursive map-like, generic in the nested codecs -/
+
+/-- the law a nested codec must satisfy on the values that occur -/
+def Cdc.Law {β : Type} (c : Cdc β) (wf : β → Prop) : Prop := ∀ x rest, wf x → c.dec (c.enc x ++ rest) = some (x, rest)
+
+variable {ν δ : Type}
+
+def WFRChange (wv : ν → Prop) (wd : δ → Prop) : RMap.Change Nat ν δ → Prop
+  | .insert k v => k < 2 ^ 32 ∧ wv v
+  | .remove k => k < 2 ^ 32
+  | .change k d => k < 2 ^ 32 ∧ wd d
+
+theorem decRChange_enc (f : Fmt) (hT : TabOK (tablesRMapChange f) 3) (V : Cdc ν) (D : Cdc δ) (wv : ν → Prop) (wd : δ → Prop)
+    (hV : V.Law wv) (hD : D.Law wd) (c : RMap.Change Nat ν δ) (rest : Bytes) (hc : WFRChange wv wd c) :
+    decRChange f V D (encRChange f V D c ++ rest) = some (c, rest) := by
+  cases c with
+  | insert k v =>
+    obtain ⟨h1, h2⟩ := hT 0 (by decide)
+    simp only [encRChange, encRChangeWith, rctorIdx, List.append_assoc, decRChange, decTag_enc f _ _ h1, h2,
+      decElem_enc k _ hc.1, hV v rest hc.2, Option.map_some]
+  | remove k =>
+    obtain ⟨h1, h2⟩ := hT 1 (by decide)
+    simp only [encRChange, encRChangeWith, rctorIdx, List.append_assoc, decRChange, decTag_enc f _ _ h1, h2,
+      decElem_enc k _ hc, Option.map_some]
+  | change k d =>
+    obtain ⟨h1, h2⟩ := hT 2 (by decide)
+    simp only [encRChange, encRChangeWith, rctorIdx, List.append_assoc, decRChange, decTag_enc f _ _ h1, h2,
+      decElem_enc k _ hc.1, hD d rest hc.2, Option.map_some]
+
+theorem decKV_enc (V : Cdc ν) (wv : ν → Prop) (hV : V.Law wv) (kv : Nat × ν) (rest : Bytes) (h : kv.1 < 2 ^ 32 ∧ wv kv.2) :
+    decKV V (encKV V kv ++ rest) = some (kv, rest) := by
+  simp only [encKV, decKV, List.append_assoc, decElem_enc kv.1 _ h.1, hV kv.2 rest h.2, Option.map_some]
+
+def WFRDiff (wv : ν → Prop) (wd : δ → Prop) : RMap.Diff Nat ν δ → Prop
+  | .replace l => (∀ kv ∈ l, kv.1 < 2 ^ 32 ∧ wv kv.2) ∧ l.length < 2 ^ 64
+  | .modify es => (∀ c ∈ es, WFRChange wv wd c) ∧ es.length < 2 ^ 64
+
+theorem decRDiff_enc (f : Fmt) (hC : TabOK (tablesRMapChange f) 3) (hDt : TabOK (tablesRMapDiff f) 2)
+    (V : Cdc ν) (D : Cdc δ) (wv : ν → Prop) (wd : δ → Prop) (hV : V.Law wv) (hD : D.Law wd)
+    (d : RMap.Diff Nat ν δ) (rest : Bytes) (hd : WFRDiff wv wd d) :
+    decRDiff f V D (encRDiff f V D d ++ rest) = some (d, rest) := by
+  cases d with
+  | replace l =>
+    obtain ⟨h1, h2⟩ := hDt 0 (by decide)
+    simp only [encRDiff, encRDiffWith, rdiffIdx, List.append_assoc, decRDiff, decTag_enc f _ _ h1, h2]
+    rw [decList_enc (encKV V) (decKV V) (fun kv => kv.1 < 2 ^ 32 ∧ wv kv.2) (fun x r h => decKV_enc V wv hV x r h) l hd.1 hd.2 rest]
+    rfl
+  | modify es =>
+    obtain ⟨h1, h2⟩ := hDt 1 (by decide)
+    simp only [encRDiff, encRDiffWith, rdiffIdx, List.append_assoc, decRDiff, decTag_enc f _ _ h1, h2]
+    rw [decList_enc (encRChange f V D) (decRChange f V D) (WFRChange wv wd)
+      (fun c r h => decRChange_enc f hC V D wv wd hV hD c r h) es hd.1 hd.2 rest]
+    rfl
+
 end Codec
